@@ -38,7 +38,7 @@ from __future__ import annotations
 
 import ast
 
-from ..astutil import call_recv, callee_name, calls, handler_types, is_name, text
+from ..astutil import call_recv, callee_name, calls, handler_types, is_name, text, unwrap_await
 from ..core import Result
 from ..engines import hnd
 from ..engines.exc import Exc
@@ -52,32 +52,98 @@ LE = "liquid.builtin.expressions.loop.LoopExpression"
 # ---------------------------------------------------------------------------------------------
 # side conditions of reviewed rows
 def _cond_slice_offset(repo: Repo) -> str | None:
-    """``_slice`` receives ``offset`` as None, the literal 'continue', or an int from _to_int.
-    (The local that carries the value is whatever name is passed as ``offset=`` to ``_slice``.)"""
+    """``_slice`` receives ``offset`` as None, the literal 'continue', or an int from _to_int — on
+    every path of ``evaluate`` / ``evaluate_async`` (private helpers inlined).  Abstract value of the
+    local handed over as ``offset=``: NONE (``= None``), INT (``= ..._to_int(...)``), CONT (known to
+    equal 'continue' by a test on that path), RAW (anything else).  RAW must not reach ``_slice``."""
+    from ..normalize import nfunc
+
     for m in ("evaluate", "evaluate_async"):
-        f = repo.own_method(LE, m)
+        f0 = repo.own_method(LE, m)
+        f = nfunc(repo, f0, keep=("_slice", "_to_iter", "_to_int"))
         sl = [c for c in calls(f.node) if callee_name(c) == "_slice"]
         vs = {text(k.value) for c in sl for k in c.keywords if k.arg == "offset"}
         if not sl or len(vs) != 1 or not all(isinstance(k.value, ast.Name) for c in sl for k in c.keywords if k.arg == "offset"):
-            return f"{f.qual}: _slice is not called with offset=<one local>"
+            return f"{f0.qual}: _slice is not called with offset=<one local>"
         var = next(iter(vs))
-        ok_if = False
-        for n in ast.walk(f.node):
-            if isinstance(n, ast.If) and text(n.test) in (f"{var} != 'continue'", f"'continue' != {var}"):
-                if len(n.body) == 1 and isinstance(n.body[0], ast.Assign) and is_name(n.body[0].targets[0], var) and "_to_int(" in text(n.body[0].value) and not n.orelse:
-                    ok_if = True
-        if not ok_if:
-            return f"{f.qual}: a quoted offset is no longer validated with `if {var} != 'continue': {var} = self._to_int({var}, ...)`"
-        for n in walk_no_nested(f.node):
-            tgt, val = None, None
-            if isinstance(n, ast.Assign) and len(n.targets) == 1:
-                tgt, val = n.targets[0], n.value
-            elif isinstance(n, ast.AnnAssign):
-                tgt, val = n.target, n.value
-            if tgt is not None and is_name(tgt, var) and val is not None:
-                tv = text(val)
-                if not (tv == "None" or "_to_int(" in tv or tv in ("self.offset.evaluate(context)", "self.offset.value")):
-                    return f"{f.qual}: `{var} = {tv}` is neither None, a _to_int(...) result nor the literal validated by the next statement"
+        bad: list[str] = []
+
+        def is_cont_test(t, src):
+            """(is a test of the offset against 'continue', polarity) — the offset being the local
+            itself or the expression it was just assigned from"""
+            if isinstance(t, ast.Compare) and len(t.ops) == 1 and isinstance(t.ops[0], (ast.Eq, ast.NotEq)):
+                l, r = t.left, t.comparators[0]
+                if isinstance(l, ast.Constant):
+                    l, r = r, l
+                if isinstance(r, ast.Constant) and r.value == "continue":
+                    return True, isinstance(t.ops[0], ast.Eq)
+            return False, None
+
+        def classify(e, known_cont: set):
+            e = unwrap_await(e) if e is not None else None
+            if e is None or (isinstance(e, ast.Constant) and e.value is None):
+                return "NONE"
+            if isinstance(e, ast.Call) and callee_name(e) == "_to_int":
+                return "INT"
+            if isinstance(e, ast.Name) and e.id == var:
+                return None  # unchanged
+            if text(e) in known_cont:
+                return "CONT"
+            return "RAW"
+
+        def block(body, states):
+            for st in body:
+                nxt = []
+                for val, src, known in states:
+                    nxt += stmt(st, val, src, known)
+                states = nxt
+                if not states:
+                    break
+            return states
+
+        def stmt(st, val, src, known):
+            if isinstance(st, (ast.Return, ast.Raise)):
+                check(st, val)
+                return []
+            if isinstance(st, ast.If):
+                hit, eq = is_cont_test(st.test, src)
+                if hit:
+                    # which expression is known to be 'continue' on the equal side
+                    l = st.test.left if not isinstance(st.test.left, ast.Constant) else st.test.comparators[0]
+                    k_eq = known | {text(l)}
+                    v_eq = "CONT" if (is_name(l, var) or (src is not None and text(l) == src)) and val == "RAW" else val
+                    t_states = [(v_eq if eq else val, src, k_eq if eq else known)]
+                    f_states = [(val if eq else v_eq, src, known if eq else k_eq)]
+                else:
+                    t_states = f_states = [(val, src, known)]
+                out = block(st.body, list(t_states))
+                out += block(st.orelse, list(f_states)) if st.orelse else list(f_states)
+                return out
+            if isinstance(st, (ast.For, ast.AsyncFor, ast.While, ast.With, ast.AsyncWith, ast.Try)):
+                for sub in ast.walk(st):
+                    if isinstance(sub, ast.Call) and callee_name(sub) == "_slice":
+                        check(sub, val)
+                return [(val, src, known)]
+            tgt = v = None
+            if isinstance(st, ast.Assign) and len(st.targets) == 1:
+                tgt, v = st.targets[0], st.value
+            elif isinstance(st, ast.AnnAssign):
+                tgt, v = st.target, st.value
+            check(st, val)
+            if tgt is not None and is_name(tgt, var) and v is not None:
+                c = classify(v, known)
+                if c is not None:
+                    return [(c, text(unwrap_await(v)), known)]
+            return [(val, src, known)]
+
+        def check(st, val):
+            for c in ast.walk(st):
+                if isinstance(c, ast.Call) and callee_name(c) == "_slice" and val == "RAW":
+                    bad.append(f"{f0.qual}: the offset can reach _slice as an unvalidated value (neither None, the literal 'continue' nor a _to_int(...) result) at line {getattr(c, 'lineno', 0)}")
+
+        block(f.node.body, [("NONE", None, frozenset())])
+        if bad:
+            return bad[0]
     return None
 
 
